@@ -83,6 +83,8 @@ def cbmc(gb, func, backends=('minisat',), unwind=None, timeout=60, extra=(), mem
     """Race the given back ends on one harness function of goto binary `gb`.
     returns dict(verdict holds|violated|unknown|error, backend, time, failed, inputs, tail)"""
     env = dict(os.environ); env['PATH'] = os.path.join(VERIF, 'stubs', 'cvc5shim') + ':' + env['PATH']
+    td = os.path.join(os.path.dirname(os.path.abspath(gb)), 'tmp'); os.makedirs(td, exist_ok=True)
+    env['TMPDIR'] = td      # CNF / SMT2 files of killed back ends stay inside the check's work directory (removed with it), not in /tmp
     procs = {}
     for b in backends:
         base = [c for c in BASE_CHECKS if not (partial_loops and c == '--unwinding-assertions')]
